@@ -76,6 +76,15 @@ type ModLoc struct {
 	Text string
 }
 
+// OnlyClause: the local variable may be passed (directly or boxed) only to the
+// listed call sites - a static resource discipline (e.g. the socket reader).
+type OnlyClause struct {
+	Local string
+	Sites []string // "callee#k"
+	Tags  []string
+	Text  string
+}
+
 type CallGhost struct {
 	Callee  string // text as written e.g. mp.recorder.WriteFrame
 	Ordinal int
@@ -107,6 +116,7 @@ type FuncContract struct {
 	LoopMod    map[int][]ModLoc
 	CallGhosts []CallGhost
 	GhostParams []string
+	Only        []OnlyClause
 	Mode       string // "" strict | "permissive" | "trusted"
 	Allocates  bool
 	File       string
@@ -578,7 +588,7 @@ func (ps *parser) parsePrimary() Expr {
 var declKeywords = map[string]bool{"ghost": true, "pure": true, "pred": true, "rec": true, "func": true, "axiom": true, "lemma": true,
 	"package": true, "import": true, "abstract": true, "iface": true, "functype": true, "fieldfunc": true}
 var clauseKeywords = map[string]bool{"requires": true, "ensures": true, "check": true, "modifies": true, "ghost_entry": true,
-	"ghost_exit": true, "loop": true, "call": true, "mode": true, "allocates": true, "tags": true, "ghostparams": true}
+	"ghost_exit": true, "loop": true, "call": true, "mode": true, "allocates": true, "tags": true, "ghostparams": true, "only": true}
 
 type rawLine struct {
 	text string
@@ -736,6 +746,20 @@ func parseClause(fc *FuncContract, w, rest string, en rawLine, path string) erro
 	case "tags":
 		tags, _ := parseTags("[" + rest + "]")
 		fc.Tags = append(fc.Tags, tags...)
+	case "only":
+		// only [tags] <local> in a#1, b#2
+		tags, body := parseTags(rest)
+		i := strings.Index(body, " in ")
+		if i < 0 {
+			return fmt.Errorf("only <local> in callee#k, ...")
+		}
+		oc := OnlyClause{Local: strings.TrimSpace(body[:i]), Tags: tags, Text: body}
+		for _, p := range strings.Split(body[i+4:], ",") {
+			if p = strings.TrimSpace(p); p != "" {
+				oc.Sites = append(oc.Sites, p)
+			}
+		}
+		fc.Only = append(fc.Only, oc)
 	case "ghostparams":
 		fc.GhostParams = append(fc.GhostParams, strings.Fields(strings.ReplaceAll(rest, ",", " "))...)
 	case "mode":
